@@ -159,7 +159,7 @@ fn replay_file(prop: &str, path: &str) -> Result<Vec<Violation>, String> {
     let v: Value = serde_json::from_str(&s).map_err(|e| e.to_string())?;
     let dec = v.get("decoded").ok_or("no decoded case")?;
     let kind = dec.get("kind").and_then(|k| k.as_str()).unwrap_or("");
-    let case = dec.get("case").cloned().ok_or("no case")?;
+    let case = dec.get("case").cloned().unwrap_or(Value::Null);
     let out = match kind {
         #[cfg(feature = "async_apis")]
         "single" => {
@@ -176,6 +176,10 @@ fn replay_file(prop: &str, path: &str) -> Result<Vec<Violation>, String> {
             }
             builder::eval_build_case(prop, &c).violations
         }
+        "iter-work" => {
+            let c: BuildCase = serde_json::from_value(case).map_err(|e| e.to_string())?;
+            builder::eval_iter_work(&c.spec)
+        }
         "build-history" => {
             let c: BuildCase = serde_json::from_value(case).map_err(|e| e.to_string())?;
             let k = dec.get("other_builds").and_then(|k| k.as_u64()).unwrap_or(0);
@@ -189,6 +193,13 @@ fn replay_file(prop: &str, path: &str) -> Result<Vec<Violation>, String> {
         "history" => {
             let c: HistoryCase = serde_json::from_value(case).map_err(|e| e.to_string())?;
             multi::eval_history(&c).violations
+        }
+        #[cfg(feature = "async_apis")]
+        "overlap-history" => {
+            let spec: model::GraphSpec = serde_json::from_value(dec.get("spec").cloned().ok_or("no spec")?).map_err(|e| e.to_string())?;
+            let a_cfg: fgverif::gen::RunCfg = serde_json::from_value(dec.get("a_cfg").cloned().ok_or("no a_cfg")?).map_err(|e| e.to_string())?;
+            let k = dec.get("other_runs").and_then(|k| k.as_u64()).unwrap_or(0);
+            multi::eval_overlap(&spec, &a_cfg, k).0
         }
         #[cfg(feature = "async_apis")]
         "multi" => {
@@ -284,6 +295,21 @@ fn run_prop(prop: &'static str, thorough: bool) -> Part {
                 part.violations.push((v, p));
             }
         }
+        if matches!(prop, "C03" | "C05" | "C06") && part.violations.is_empty() {
+            let t = Instant::now();
+            let sw = single::drop_sweep(prop);
+            part.stats.evaluations += sw.runs;
+            part.stats.executions += sw.runs;
+            for h in &sw.hashes {
+                part.stats.nontrivial.insert(*h);
+            }
+            part.engines.push(json!({"engine": "drop-count sweep (streams): join with 130 / 260 predecessors, forward and reverse, every number k = 1..F of FnRefs dropped between two polls once", "runs": sw.runs, "wall_s": t.elapsed().as_secs_f64()}));
+            if let Some((v, case)) = sw.violation {
+                let f = Failure { check: format!("drop-sweep:{prop}"), violation: v.clone(), tapes: vec![], decoded: json!({"kind": "single", "intr_build": INTR, "case": case}) };
+                let p = write_replay(prop, &f);
+                part.violations.push((v, p));
+            }
+        }
         let check = SingleCheck::new(prop, thorough);
         part.add_search(prop, &check, cases, workers, &known);
         if prop == "C05" && !INTR {
@@ -313,6 +339,21 @@ fn run_prop(prop: &'static str, thorough: bool) -> Part {
         #[cfg(feature = "async_apis")]
         "C20" => {
             let mut part = Part::new(multi::MULTI_RULE);
+            {
+                let t = Instant::now();
+                let oh = multi::overlap_histories(seed());
+                part.stats.evaluations += oh.instances;
+                part.stats.executions += oh.runs;
+                for h in &oh.hashes {
+                    part.stats.nontrivial.insert(*h);
+                }
+                part.engines.push(json!({"engine": "long overlaps: K = 255, 256, 65535, 65536 other runs started and finished on the same graph while run A (stream / for_each_concurrent / fold_async) is in progress; A compared with the same run alone", "instances": oh.instances, "runs": oh.runs, "samples": oh.samples, "wall_s": t.elapsed().as_secs_f64()}));
+                if let Some((v, dec)) = oh.violation {
+                    let f = Failure { check: "overlap-histories:C20".into(), violation: v.clone(), tapes: vec![], decoded: dec };
+                    let p = write_replay(prop, &f);
+                    part.violations.push((v, p));
+                }
+            }
             let check = MultiCheck::new(thorough);
             part.add_search(prop, &check, cases, workers, &known);
             if !INTR {
@@ -400,6 +441,21 @@ fn run_prop(prop: &'static str, thorough: bool) -> Part {
                     }
                 }
             }
+            if prop == "C17" {
+                let t = Instant::now();
+                let iw = builder::graph_info_iter_work();
+                part.stats.evaluations += iw.instances;
+                part.stats.executions += iw.instances;
+                for h in &iw.hashes {
+                    part.stats.nontrivial.insert(*h);
+                }
+                part.engines.push(json!({"engine": "iteration work: GraphInfo::iter / iter_rev on ladders and complete DAGs (up to 2^38 paths), ascending, thread CPU time against a budget", "instances": iw.instances, "max_cpu_s": iw.max_cpu_s, "cpu_budget_s": builder::ITER_CPU_BUDGET_S, "wall_s": t.elapsed().as_secs_f64()}));
+                if let Some((v, case)) = iw.violation {
+                    let f = Failure { check: "iter-work:C17".into(), violation: v.clone(), tapes: vec![], decoded: json!({"kind": "iter-work", "case": case}) };
+                    let p = write_replay(prop, &f);
+                    part.violations.push((v, p));
+                }
+            }
             if (prop == "C11" || prop == "C13") && part.violations.is_empty() {
                 let t = Instant::now();
                 let big = builder::big_builds(prop, thorough, seed());
@@ -432,7 +488,10 @@ fn run_prop(prop: &'static str, thorough: bool) -> Part {
                 }
             }
             let check = BuildCheck::new(prop, thorough, cap);
-            part.add_search(prop, &check, cases, workers, &known);
+            if !(prop == "C17" && !part.violations.is_empty()) {
+                // (with an exponential GraphInfo walk the random tier would not terminate)
+                part.add_search(prop, &check, cases, workers, &known);
+            }
             part.assumptions = vec![
                 "graphs are built through the public builder API only; the built graph is read from the public field FnGraph::graph and ranks()".into(),
                 "reference algorithms (conflict relation, cycle model, longest-path ranks, span-ordered augmentation) are the harness's own".into(),
